@@ -492,16 +492,53 @@ func RunC06(d *Driver) *Report {
 		if !ok || len(toks) == 0 {
 			continue
 		}
-		text := prattTextW(prattRelayout(rng, toks))
-		switch rng.Intn(4) {
+		rl := prattRelayout(rng, toks)
+		text := prattTextW(rl)
+		ctx := rng.Intn(4)
+		var src, head, tail, mode string
+		switch ctx {
 		case 0:
-			check("relayout", prattPrelude+"x := "+text+"\n"+prattUses, i)
+			src, head, tail, mode = prattPrelude+"x := "+text+"\n"+prattUses, "x := ", "", "0"
 		case 1:
-			check("relayout", prattPrelude+"x := 0\nprint "+text+"\n"+prattUses, i)
+			src, head, tail, mode = prattPrelude+"x := 0\nprint "+text+"\n"+prattUses, "print ", "", "args"
 		case 2:
-			check("relayout", prattPrelude+"x := ["+text+"]\n"+prattUses, i)
+			src, head, tail, mode = prattPrelude+"x := ["+text+"]\n"+prattUses, "x := [", "]", "args"
 		default:
-			check("relayout", prattPrelude+"x := {k:"+text+"}\n"+prattUses, i)
+			src, head, tail, mode = prattPrelude+"x := {k:"+text+"}\n"+prattUses, "x := {k:", "}", ""
+		}
+		check("relayout", src, i)
+		// the formatter model (Model/PrattFmt.lean, Props/C06Layout.lean): the flagged tokens of the formatted
+		// expression are the model's layout of the tree(s) the parser model reads from the source tokens
+		if mode == "" || prattLiteralStart(rl) {
+			continue
+		}
+		f, ok, _ := fmtOf(src)
+		if !ok {
+			continue
+		}
+		line := ""
+		for _, l := range strings.Split(f, "\n") {
+			if strings.HasPrefix(l, head) && l != "x := 0" {
+				line = strings.TrimSuffix(strings.TrimPrefix(l, head), tail)
+				break
+			}
+		}
+		ft, ok2 := prattLexW(line)
+		if line == "" || !ok2 {
+			continue
+		}
+		req := "layoutw " + mode + " " + prattWire(rl)
+		if ctx == 2 {
+			req += " RBRACKET"
+		}
+		ans, err := d.Ask(req)
+		if err != nil {
+			panic(err)
+		}
+		r.Count("layout-model:"+text, true)
+		r.Hist("layout-model", []string{"declaration", "arguments", "elements"}[ctx])
+		if real := "LAYOUT " + prattWire(ft); ans != real {
+			r.Disagree(Case{Stream: "layout-model", Input: src, Real: real + "   (formatted: " + line + ")", Model: ans, Note: "flagged tokens of the formatted expression against Model/PrattFmt.lean layout, request " + req})
 		}
 	}
 	// every binary operator written without spaces between bracketed (and plain) operands in the four kinds of position
